@@ -83,10 +83,21 @@ def render_instant(t, how):
 
 
 class SimStore(ValueStore):
-    __slots__ = ("name",)
+    """`name` identifies the registry entry in the event log; `key` is the identity of the stored thing: two entries
+    for one store (`registry.source(plan, registry[x])`) have different names, one key - and compare equal, as
+    value stores implemented as value objects (dataclasses) do."""
 
-    def __init__(self, name):
+    __slots__ = ("name", "key")
+
+    def __init__(self, name, key=None):
         self.name = name
+        self.key = name if key is None else key
+
+    def __eq__(self, other):
+        return type(other) is type(self) and other.key == self.key
+
+    def __hash__(self):
+        return hash((type(self).__name__, self.key))
 
     def read(self):
         return RT[0].store_read(self.name)
